@@ -373,6 +373,8 @@ func checkC13(c *Ctx, r *Report) {
 
 	c13R4(c, r, infos)
 	c13R5(c, r)
+	c13CloseBeforeDone(c, r, "C13.R2.close-before-done")
+	c13LockReleasedOnReturn(c, r, "C13.R3.lock-released")
 }
 
 func fnDisplay(f *ssa.Function) string {
